@@ -28,6 +28,7 @@ type NodeConfig struct {
 	DeferredCode    bool   `json:"deferred_code,omitempty"`
 	OwnerHandler    bool   `json:"owner_handler,omitempty"`
 	RecordGauge     bool   `json:"record_gauge,omitempty"`
+	KeepLoaded      bool   `json:"keep_loaded,omitempty"` // the program cache keeps contract programs loaded by executions that failed later
 }
 
 func (c NodeConfig) UseVM() bool { return c.Engine == "vm" || c.Engine == "vmpeep" }
@@ -85,6 +86,7 @@ func (n *Node) boot() {
 	n.H = NewHost(w)
 	n.H.Hook, n.H.SharedLoad = hook, shared
 	n.H.DeferredCode = n.Cfg.DeferredCode
+	n.H.KeepOnAbort = n.Cfg.KeepLoaded
 	n.H.RecordGauge = n.Cfg.RecordGauge
 	n.RT = runtime.NewRuntime(n.rtConfig())
 	n.Env = n.newEnv(false)
